@@ -1812,6 +1812,42 @@ fn main() {
                     acc.case(true, "typed-getter:other-targets");
                 }
             }
+            // float targets on float values: f32 values (NaN, both infinities, both zeros, the ends
+            // of the range, a subnormal) come back bit for bit through every getter; an f64 too
+            // large for f32 is refused. (Seeded change C19-13 refused an f32 NaN as out of range.)
+            let same32 = |a: f32, b: f32| a.to_bits() == b.to_bits() || (a.is_nan() && b.is_nan());
+            for x in [0.0f32, -0.0, 1.5, -2.25, f32::MAX, f32::MIN, f32::MIN_POSITIVE, 1e-45, f32::INFINITY, f32::NEG_INFINITY, f32::NAN, -f32::NAN] {
+                let v = Value::from(x);
+                let mut m = tera::value::Map::new();
+                m.insert("k".into(), v.clone());
+                let kw = tera::Kwargs::new(std::sync::Arc::new(m));
+                let mut ctx = Context::new();
+                ctx.insert_value("k", v.clone());
+                let st = tera::State::new(&ctx);
+                let got: [(&str, Result<Result<Option<f32>, String>, String>); 4] = [
+                    ("TryFrom<Value>", engine::guarded(|| f32::try_from(v.clone()).map(Some).map_err(|e| e.to_string()))),
+                    ("Kwargs::get", engine::guarded(|| kw.get::<f32>("k").map_err(|e| e.to_string()))),
+                    ("Kwargs::must_get", engine::guarded(|| kw.must_get::<f32>("k").map(Some).map_err(|e| e.to_string()))),
+                    ("State::get", engine::guarded(|| st.get::<f32>("k").map_err(|e| e.to_string()))),
+                ];
+                for (getter, g) in got {
+                    if !matches!(&g, Ok(Ok(Some(y))) if same32(*y, x)) {
+                        acc.violation("typed-getter:f32".to_string(), format!("{getter}::<f32> on Value::from({x:?}f32) gave {g:?}"), || json!({"getter": getter, "value": format!("{x:?}")}));
+                    }
+                    acc.case(true, "typed-getter:f32");
+                }
+                match engine::guarded(|| f64::try_from(v.clone()).map_err(|e| e.to_string())) {
+                    Ok(Ok(y)) if y == x as f64 || (y.is_nan() && x.is_nan()) => {}
+                    other => acc.violation("typed-getter:f64".to_string(), format!("f64::try_from(Value::from({x:?}f32)) gave {other:?}"), || json!({"value": format!("{x:?}")})),
+                }
+            }
+            for x in [1e39f64, -1e300, f64::MAX] {
+                match engine::guarded(|| f32::try_from(Value::from(x)).map_err(|e| e.to_string())) {
+                    Ok(Err(_)) => {}
+                    other => acc.violation("typed-getter:f32-out-of-range".to_string(), format!("f32::try_from(Value::from({x:?}f64)) gave {other:?}, expected an error"), || json!({"value": format!("{x:?}")})),
+                }
+                acc.case(true, "typed-getter:f32-refused");
+            }
         },
     );
 
